@@ -47,6 +47,7 @@ impl HasDepthLimit<Srcloc, CompileErr> for VisitedInfo {
 trait VisitedInfoAccess {
     fn get_function(&mut self, name: &[u8]) -> Option<Rc<BodyForm>>;
     fn insert_function(&mut self, name: Vec<u8>, body: Rc<BodyForm>);
+    fn remove_function(&mut self, name: &[u8]);
 }
 
 impl VisitedInfoAccess for VisitedMarker<'_, VisitedInfo> {
@@ -61,6 +62,12 @@ impl VisitedInfoAccess for VisitedMarker<'_, VisitedInfo> {
     fn insert_function(&mut self, name: Vec<u8>, body: Rc<BodyForm>) {
         if let Some(ref mut info) = self.info {
             info.functions.insert(name, body);
+        }
+    }
+
+    fn remove_function(&mut self, name: &[u8]) {
+        if let Some(ref mut info) = self.info {
+            info.functions.remove(name);
         }
     }
 }
@@ -1034,7 +1041,7 @@ impl<'info> Evaluator {
             }
 
             visited.insert_function(
-                where_from_vec,
+                where_from_vec.clone(),
                 Rc::new(BodyForm::Call(
                     maybe_condition.loc(),
                     vec![x_head.clone(), cond.clone()],
@@ -1061,6 +1068,13 @@ impl<'info> Evaluator {
                     None,
                 )),
             );
+
+            // The placeholder only guards against re-entering this condition
+            // while its own branches are being followed (recursion).  Another
+            // conditional at the same source location (a second expansion of
+            // the same macro or function body) has different contents and
+            // must not be answered with this one's placeholder.
+            visited.remove_function(&where_from_vec);
 
             // Reproduce the equivalent hull over the used values of
             // (a (i cond surrogate_apply_true surrogate_apply_false))
